@@ -29,6 +29,20 @@ VERIF = os.path.dirname(os.path.dirname(os.path.abspath(__file__)))
 KNOWN_FILE = os.path.join(VERIF, "known_findings.json")
 
 
+class SeamMissing(Exception):
+    """
+    A module-level name the harness replaces (a *seam*) does not exist in the
+    code under test, e.g. after a refactoring.  The job is then inconclusive,
+    never a violation.
+    """
+
+
+def seam(module: Any, name: str) -> Any:
+    if not hasattr(module, name):
+        raise SeamMissing("%s.%s" % (getattr(module, "__name__", module), name))
+    return getattr(module, name)
+
+
 class Arg(NamedTuple):
     name: str
     lo: int
@@ -159,6 +173,7 @@ class Stats:
         self.witnesses: List[List[int]] = []
         self.failure: Optional[List[int]] = None
         self.failure_detail = ""
+        self.seam_missing = ""
 
 
 def _instrument_z3(stats: Stats) -> None:
@@ -242,6 +257,9 @@ def make_wrapper(job: Job, stats: Stats) -> Callable[..., None]:
         try:
             ok = fn(*args)
             failed = ok is False or (ok is not None and ok is not True and not ok)
+        except SeamMissing as exc:
+            stats.seam_missing = str(exc)
+            return
         except Exception as exc:
             if stats.failure is None:
                 stats.failure = _realize_args(args)
@@ -320,6 +338,8 @@ def run_native(fn: Callable[..., Any], args: Sequence[int], collect: Optional[se
     CTX.reached = False
     try:
         ok = fn(*args)
+    except SeamMissing as exc:
+        return True, "seam missing: %s" % exc
     except Exception as exc:  # noqa: BLE001
         return False, "exception " + type(exc).__name__ + ": " + str(exc)[:300]
     finally:
@@ -344,6 +364,9 @@ def execute_job(job: Job) -> Dict[str, Any]:
             res["messages"] = texts
             mismatches = []
             native_runs = 0
+            if stats.seam_missing:
+                verdict = "SEAM_MISSING"
+                res["error"] = "seam not found in the code under test: " + stats.seam_missing
             if verdict == "CONFIRMED":
                 if stats.reached_paths == 0:
                     verdict = "VACUOUS"
